@@ -54,6 +54,7 @@ class VLoop(_ra.BaseEventLoop):
     self._selector = _FakeSelector(self)
     self._woken = False
     self._vpool = None
+    self._sched = sched._current
 
   def _is_woken(self):
     return self._woken
@@ -66,7 +67,7 @@ class VLoop(_ra.BaseEventLoop):
 
   def _write_to_self(self):
     s = sched._current
-    if s is not None:
+    if s is not None and s is self._sched:
       s.note('loop-wake', self.vname)
     self._woken = True
 
